@@ -3,6 +3,7 @@
 The whole-program statement is runtime behaviour and is not decided here; it is reduced to C01, C02, C03 plus the
 clauses below, each a necessary condition: the two build configurations share the step tail, select the engine by
 address only, and cut blocks at the same places."""
+import re
 import itertools
 from .. import absint, terms as T
 from ..terms import C, S, O, AV, fmt
@@ -285,28 +286,87 @@ def exit_functions(ctx, chk, fd, fj):
         if t[3] and t[3][0] == 'len' and 'get_executable_memory_segment' in t[3][1]:
             return AV(64, 1, 1 << 40)
         return None
-    ipj = absint.Interp(fj, opaque=opq, loop_mode='havoc', trust_asserts=('overflow', 'bounds', 'slice_index'), sym_facts=sf)
+    # Two consecutive iterations from the summarised loop state: the decision taken after an instruction has been decoded
+    # (T = its is_block_end(), NEXT = the index after it) is "a second decode is reached" / "the function returns first",
+    # whatever the loop is written as (while !ended, loop { .. if ended { break } }, tests at the head or at the tail)
+    ipj = absint.Interp(fj, opaque=opq, loop_mode='havoc', trust_asserts=('overflow', 'bounds', 'slice_index'), sym_facts=sf,
+                        extra_iterations=1)
     st = ipj.new_state()
     cache = ipj.arg_object(st, 'cache')
     I = S(64, 'ip')
     rsj = ipj.run(TCB, [cache, S(0, 'code'), I, S(0, 'mem')], st)
-
-    def ren_j(r):
-        bsym = find_sym(r, lambda s_: s_[1] == 1 and s_[2].startswith('loopvar:'))
-        xsym = None
-        for k_, t_, v_ in r.state.env.log:
-            ss = syms_of(t_)
-            for s_ in ss:
-                if s_[1] == 64 and s_[2].startswith('loopvar:') and 'len(' not in s_[2]:
-                    if I in ss or xsym is None:
-                        xsym = s_
-        if bsym is None:
-            return None
-        mp = {I: START, bsym: Tt}
-        if xsym is not None:
-            mp[xsym] = NEXT
-        return mp
-    exJ, coJ, nJ = collect(rsj, ren_j, lambda r: True)
+    DEC, IBE, SEG = 'decoder::decode', 'decoder::ops::Op::is_block_end', 'cache::CodeCache::get_executable_memory_segment'
+    exJ = coJ = 0
+    nJ = 0
+    first_stop = []
+    keepn = {'T', 'START', 'NEXT'}
+    for r in rsj:
+        if r.status not in ('ok', 'loopback'):
+            continue
+        evs = r.state.events
+        alldec = [e for e in evs if e[0] == 'call' and e[1] == DEC]
+        if r.status == 'ok' and not alldec:
+            # a return with nothing decoded.  When the loop state was summarised before the first iteration, the path
+            # belongs to the first iteration only if it is feasible with the index still equal to the start address
+            inits = [e for e in evs if e[0] == 'loopinit' and e[2] == I]
+            if not any(e[0] == 'loopinit' for e in evs):
+                first_stop.append(r)
+            else:
+                env1 = r.state.env.copy()
+                if all(env1.assume_eq(O(1, 'eq', e[1], I), 1) for e in inits) and inits and \
+                        absint.feasible(_relevant(env1, {I} | {e[1] for e in inits})):
+                    first_stop.append(r)
+        hv = [i for i, e in enumerate(evs) if e[0] == 'loopinit']
+        if not hv:
+            continue            # left during the first iteration (executed from the initial state, before the summary)
+        evs = evs[hv[-1] + 1:]
+        dec = [i for i, e in enumerate(evs) if e[0] == 'call' and e[1] == DEC]
+        if not dec:
+            continue            # the summarised state was already past the end of the block
+        ibe = [e for e in evs[dec[0]:] if e[0] == 'call' and e[1] == IBE]
+        seg = [e for e in evs[:dec[0]] if e[0] == 'call' and e[1] == SEG]
+        if not ibe or not seg or len(seg[-1][2]) < 2:
+            chk.error('C04.3: translate_code_block does not decode from get_executable_memory_segment(index) and test '
+                      'is_block_end() of the result (anchor lost)')
+            return
+        T1 = ibe[0][3]
+        X = seg[-1][2][1]
+        mloc = re.search(r'^loopvar:.*:_(\d+)$', X[2]) if X[0] == 's' else None
+        if mloc is None:
+            # on the path where the index still equals the start address the analysis may have unified the two: the
+            # index is then the loop variable that was initialised with that value
+            cand = [e[1] for e in r.state.events if e[0] == 'loopinit' and e[2] == X and e[1][1] == 64]
+            if len(cand) == 1:
+                mloc = re.search(r'^loopvar:.*:_(\d+)$', cand[0][2])
+        if mloc is None:
+            chk.error('C04.3: the translator\'s instruction index is not a loop variable (%s): loop not understood' % fmt(X))
+            return
+        n_idx = int(mloc.group(1))
+        its = [e for e in evs if e[0] == 'iteration' and e[1] == TCB]
+        if its:
+            nxt = dict(its[0][4]).get(n_idx)
+        else:
+            nxt = r.state.mem.get(('L', 1, n_idx))
+        if nxt is None or not T.is_int(nxt):
+            chk.error('C04.3: cannot read the index after the first of two iterations')
+            return
+        env = r.state.env.copy()
+        if not env.assume_eq(O(1, 'eq', NEXT, nxt), 1):
+            continue
+        ren = {I: START}
+        if T.is_int(T1) and T1[0] == 's':
+            ren[T1] = Tt
+        try:
+            _, _, K = bvproof.setup(_relevant(env, {I, NEXT, Tt, T1}), m, conv, ren)
+        except Unsupported:
+            chk.error('C04.3: the translator path condition left the bit-vector fragment')
+            return
+        K = m.exists(K, lambda nm: nm not in keepn)
+        nJ += 1
+        if len(dec) >= 2:
+            coJ = m.OR(coJ, K)
+        else:
+            exJ = m.OR(exJ, K)
     if not nI or not nJ:
         chk.error('C04.3: could not extract the loop-exit paths (interpreter %d, translator %d)' % (nI, nJ))
         return
@@ -366,14 +426,38 @@ def exit_functions(ctx, chk, fd, fj):
                              '(block-by-block stepping diverges)' % (show(w), 'ends the block' if _holds(m, exI, w) else 'continues',
                                                                       'ends the block' if _holds(m, exJ, w) else 'continues'),
                              file, None)
-    # first iteration of the translator (next == start, nothing translated yet) must continue
-    first = m.AND(m.AND(P, vS.ult(BV.const(m, 64, 0x8000))), m.AND(vS.eq(vN), m.NOT(vT)))
-    stop = m.AND(first, exJ)
-    if stop == 0 and first != 0:
+    # first iteration of the translator (nothing translated yet): the first instruction is always decoded
+    if not first_stop:
         chk.ok('C04.3', 'first-iteration')
     else:
-        chk.fail('C04.3', 'first-iteration', 'translator may end a block before translating its first instruction: %s'
-                 % show(m.witness(stop if stop != 0 else 1)), 'src/cache/mod.rs', None)
+        chk.fail('C04.3', 'first-iteration', 'translator may end a block before translating its first instruction (a path '
+                 'returns without reaching decode(): %s)' % [fmt(d[0])[:80] for d in first_stop[0].state.decisions][-3:],
+                 'src/cache/mod.rs', None)
+
+
+class _EnvView:
+    def __init__(self, log, ref, sym_facts):
+        self.log, self.ref, self.sym_facts = log, ref, sym_facts
+
+
+def _relevant(env, seeds):
+    """the part of a path condition that can constrain the seed symbols: assumptions connected to them through shared
+    symbols (dropping the others - buffer cursors, lengths - only weakens conjuncts that are independent of the seeds)"""
+    items = [(k, t, v, frozenset(syms_of(t))) for k, t, v in env.log if isinstance(t, tuple) and t and t[0] in ('s', 'o')]
+    seen = set(s_ for s_ in seeds if isinstance(s_, tuple))
+    changed = True
+    used = [False] * len(items)
+    while changed:
+        changed = False
+        for i, (k, t, v, ss) in enumerate(items):
+            if not used[i] and ss & seen:
+                used[i] = True
+                if not ss <= seen:
+                    seen |= ss
+                changed = True
+    log = [(k, t, v) for i, (k, t, v, ss) in enumerate(items) if used[i]]
+    ref = {t: av for t, av in env.ref.items() if t in seen}
+    return _EnvView(log, ref, env.sym_facts)
 
 
 def _holds(m, f, w):
